@@ -36,15 +36,11 @@ theorem observe_preload_saveAs (m : Mem) (c : Full) (t : Fmt) (wf : MemWF m) (hc
     have hfind : c.layers.find? (fun l => l.name = a.name) = some b := by
       have := find?_name_of_mem c.layers b hcn hb'
       rwa [h1] at this
-    have hpl : preloadLayer m c t true a = ⟨a.name, loaded b.glyphs, a.info⟩ := by
+    have hpl : preloadLayer m c t true a = { a with src := a.src, glyphs := loaded b.glyphs } := by
       unfold preloadLayer
       simp [keepLazy_saveAs, hfind]
     rw [hpl]
-    unfold observeLayer
-    simp only [fill_loaded, Option.map_some]
-    cases b
-    simp at h1 h2 ⊢
-    exact ⟨h1.symm, h2.symm⟩
+    exact observeLayer_loaded _ a b a.src h1 h2
   have hb : (preload m c t true).bound = m.bound := rfl
   unfold observe
   have hL : (preload m c t true).layers = m.layers.map (preloadLayer m c t true) := rfl
